@@ -1,6 +1,7 @@
 package c11
 
 import (
+	"strconv"
 	"bytes"
 	"fmt"
 
@@ -796,6 +797,15 @@ func Gen(run *vlib.Run, seed uint64, tier string) {
 	// loca format boundaries (large byte strings: few)
 	g.r = root.Fork("boundary")
 	g.boundarySets([]int{65534, 65536, 131070, 131072})
+	// the upper end of the glyph count: 65534 and 65535 glyphs (mostly empty)
+	for _, n := range []int{65534, 65535} {
+		gg := make(glyf.Glyphs, n)
+		for _, i := range []int{0, 1, 255, 256, 32767, 32768, n - 2, n - 1} {
+			gg[i], _, _ = g.simple()
+		}
+		gg[n/2] = g.composite(-1)
+		g.set(gg, true, 0, "glyph-count-"+strconv.Itoa(n))
+	}
 	if tier == "thorough" {
 		g.boundarySets([]int{65532, 65534, 65536, 65538, 131068, 131070, 131072, 131074, 200000, 65534, 65536})
 		// many glyphs, mostly nil
